@@ -85,7 +85,7 @@ theorem flat_heap (v : Variant) (hv : v.callCopies = true) :
               | .error er => ⟨p.1.h, p.1.st, p.1.src, p.2, .err er⟩
               | .ok (.atom .none) => flat v n p.1.h p.1.st p.1.src p.2
               | .ok (.atom (.str s)) => ⟨p.1.h, p.1.st, p.1.src, p.2, .ev (.text s false)⟩
-              | .ok (.atom a) => ⟨p.1.h, p.1.st, p.1.src, p.2, .ev (.text a.text true)⟩
+              | .ok (.atom a) => ⟨p.1.h, p.1.st, p.1.src, p.2, .ev (.text a.text false)⟩
               | .ok (.list xs) => flat v n p.1.h p.1.st p.1.src (.ensure xs :: p.2)
               | .ok (.opaque _) => ⟨p.1.h, p.1.st, p.1.src, p.2, .err .unmodelled⟩
               | .ok (.macro _) => ⟨p.1.h, p.1.st, p.1.src, p.2, .err .unmodelled⟩
